@@ -109,7 +109,7 @@ func runBGVShare(c *eng.Ctx, cc caseCfg) {
 		c.Violate(sigE+".New|error-on-admissible", fmt.Sprint(err1, err2), w.cf)
 		return
 	}
-	freshB := 1 + pkEncBound(params, float64(n*params.N())) // generous a-priori bound on the input noise (sk or pk encryption)
+	freshB := freshBound(params, float64(n*params.N())) // generous a-priori bound on the input noise (sk or pk encryption)
 	for _, ctLevel := range w.levels(params.MaxLevel()) {
 		// share levels at which the masked decryption is guaranteed to be exact
 		lv := levelsFor(ctLevel, func(l int) bool { return budgetBGV(bp, l, freshB+float64(n)*(B+1)+1) })
